@@ -576,7 +576,8 @@ pub fn enabled_ops(snap: &Snapshot, live: &BTreeSet<usize>, all_shapes: bool) ->
     let mut out = Vec::new();
     for n in 0..NAMES.len() {
         let pre = abstract_layer(snap, NAMES[n]);
-        for (build, launch) in [(true, false), (false, true)] {
+        let cached_flags: &[(bool, bool)] = if all_shapes { &[(true, false), (false, true), (true, true), (false, false)] } else { &[(true, false), (false, true)] };
+        for (build, launch) in cached_flags.iter().copied() {
             for m in [MKind::Generic, MKind::V1] {
                 let mut push = |restored, invalid, restored2| {
                     let needs_err = restored == Some(RDec::Err) || invalid == Some(IDec::Err) || restored2 == Some(RDec::Err);
@@ -599,7 +600,8 @@ pub fn enabled_ops(snap: &Snapshot, live: &BTreeSet<usize>, all_shapes: bool) ->
                 }
             }
         }
-        for (build, launch) in [(true, false), (false, true), (true, true)] {
+        let uncached_flags: &[(bool, bool)] = if all_shapes { &[(true, false), (false, true), (true, true), (false, false)] } else { &[(true, false), (false, true), (true, true)] };
+        for (build, launch) in uncached_flags.iter().copied() {
             out.push(Op::Uncached { n, build, launch });
         }
         if live.contains(&n) {
